@@ -25,6 +25,8 @@ LEVEL_TEXT = (
     "ColumnError or a well-formed tree holding both operands' columns is acceptable), expression unsupported by the engine (bare, nested below other functions, or inside AND / OR / NOT of a selection predicate), slice "
     "negative / reversed / stepped / not a slice) and issued with drawn preferred-engine options.  The call must raise "
     "the documented class and leave every existing relation's fingerprint unchanged."
+    "  Edits also cover a user-defined operation whose required column is missing and stepped slices in every "
+    "spelling of the bounds ([::2], [0::3], [:3:2], ...)."
 )
 LEVEL_NOTE = "trusts: fingerprint() covers structure, columns, bounds and leaf payload content; the edit catalogue is sampled, not exhaustive over positions"
 RULE = (
